@@ -49,6 +49,11 @@ def showLog (l : Log) : String :=
   let base := "c=" ++ toString l.ncmp ++ " s=" ++ toString l.nswap ++ " lh=" ++ toString l.h
   if l.keep then base ++ " log=" ++ " ".intercalate (l.evs.reverse.map showEv) else base
 
+/-- what the C side prints for the same event: an access outside the array or
+the scratch cell is an AddressSanitizer report; "did not finish" (possible only
+for the random pivot on a stream that never stops drawing the last index —
+the driver's streams end in zeros, see `sort_total`) is unbounded recursion,
+i.e. stack exhaustion; `ovf` needs more than 2^30 elements -/
 def stopLine : Stop → String
   | .oob => "STOP asan"
   | .fuel => "STOP segv"
